@@ -252,6 +252,12 @@ class Ops2(Ops):
             fn = self.get_func(self.srv.lookup(stub))
             name = fn['name']
         model = self.models.get(name)
+        if model is None and self.noop_prefixes and name.startswith(self.noop_prefixes):
+            self.models_used.add('noop:' + name)
+            if dest is not None:
+                res = ins.get('res') or []
+                f.locals[dest] = None if not res else (self.zero(res[0]) if len(res) == 1 else tuple(self.zero(t) for t in res))
+            return None
         if model is None and not fn.get('hasbody') and fn['short'].startswith('verif'):
             model = self.api_call
         if model is None and fn.get('pkg') in self.pkg_models:
